@@ -137,16 +137,17 @@ class Fails:
         self.counters[key] = self.counters.get(key, 0) + n
 
     def need(self, cond, kind, msg):
+        """msg: str or zero-argument callable (built only on failure)."""
         self.compared += 1
         if not cond:
-            self.add(kind, msg)
+            self.add(kind, msg() if callable(msg) else msg)
         return cond
 
     def close(self, key, err, tol, kind, msg):
         self.compared += 1
         self.err(key, err)
         if not (err <= tol):
-            self.add(kind, f"{msg}: error {err:.3g} > {tol:.3g}")
+            self.add(kind, f"{msg() if callable(msg) else msg}: error {err:.3g} > {tol:.3g}")
             return False
         return True
 
@@ -264,7 +265,7 @@ def _check_eig(F, u, tag=""):
     if ok:
         vals, vecs = r
         F.close("unitary_eig_V", L.exact_err(vecs @ L.dag(vecs), np.eye(len(u))), 1e-8, "unitary_eig", f"{tag}eigenvector matrix not unitary")
-        F.close("unitary_eig", L.exact_err(u, (vecs * vals) @ L.dag(vecs)), TOL, "unitary_eig", f"{tag}V diag(vals) V^dag != matrix {fmt(u) if len(u) <= 4 else ''}")
+        F.close("unitary_eig", L.exact_err(u, (vecs * vals) @ L.dag(vecs)), TOL, "unitary_eig", lambda: f"{tag}V diag(vals) V^dag != matrix {fmt(u) if len(u) <= 4 else ''}")
     # entire functions only (no branch cut): f(M) must equal the power series value
     for c in (0.5, -1.3):
         ok, r = guarded(F, "map_eigenvalues", cirq.map_eigenvalues, u, lambda v, c=c: np.exp(1j * c * v))
@@ -309,19 +310,20 @@ def _check_kak_obj(F, k, u, info, label, tol=TOL, want_canon_eq=True):
     F.need(L.is_canonical(v), "kak_canonical", f"{label}: interaction coefficients {v} are not canonical (pi/4>=x>=y>=|z|, z>=0 if x=pi/4)")
     F.need(abs(abs(k.global_phase) - 1) <= 1e-8, "kak_phase", f"{label}: |global_phase| = {abs(k.global_phase)}")
     for nm, m in zip(("b0", "b1", "a0", "a1"), (*k.single_qubit_operations_before, *k.single_qubit_operations_after)):
-        F.need(np.shape(m) == (2, 2) and su2_ok(np.asarray(m)), "kak_su2", f"{label}: factor {nm} is not in SU(2): {fmt(m)}")
+        F.need(np.shape(m) == (2, 2) and su2_ok(np.asarray(m)), "kak_su2", lambda: f"{label}: factor {nm} is not in SU(2): {fmt(m)}")
     if want_canon_eq and _robust_canon(info):
         d = max(abs(a - b) for a, b in zip(v, info["vc"]))
         F.close("kak_vec", d, 1e-7, "kak_coefficients", f"{label}: coefficients {v} differ from the reference canonical vector {info['vc']}")
 
 
 def _robust_canon(info):
-    """The canonical vector is unambiguous unless x is within (1e-10, 1e-3) of the pi/4 face with z != 0."""
+    """The canonical vector is unambiguous unless x is within (1e-10, 1e-6) of the pi/4 face with z != 0
+    (the documented windows in which z may be forced non-negative are 1e-9 / 1e-8 wide)."""
     x, y, z = info["vc"]
     if info["exact"]:
         return True
     dx = PI / 4 - x
-    return not (1e-10 < dx < 1e-3) or abs(z) < 1e-10
+    return not (1e-10 < dx < 1e-6) or abs(z) < 1e-10
 
 
 def run_kak(desc):
@@ -330,10 +332,12 @@ def run_kak(desc):
     ok, k = guarded(F, "kak", cirq.kak_decomposition, u)
     if ok:
         _check_kak_obj(F, k, u, info, "kak_decomposition(U)")
-        F.close("kak_unitary", L.exact_err(kak_product(k), cirq.unitary(k)), 1e-8, "kak_unitary_protocol", "cirq.unitary(KakDecomposition) differs from the documented product formula")
-        ok2, dops = guarded(F, "kak_decompose", cirq.decompose_once_with_qubits, k, Q2)
-        if ok2:
-            F.close("kak_decompose", L.exact_err(u, ops_unitary(flat_ops(dops), Q2)), TOL, "kak_decompose", "KakDecomposition._decompose_ does not rebuild U")
+        if desc[0] == 2 or (desc[4] == L.LOC_I and desc[5] == L.LOC_I) or desc[4] == desc[5]:
+            # the protocol methods of the returned object are plain functions of its fields: checked on a sub-family
+            F.close("kak_unitary", L.exact_err(kak_product(k), cirq.unitary(k)), 1e-8, "kak_unitary_protocol", "cirq.unitary(KakDecomposition) differs from the documented product formula")
+            ok2, dops = guarded(F, "kak_decompose", cirq.decompose_once_with_qubits, k, Q2)
+            if ok2:
+                F.close("kak_decompose", L.exact_err(u, ops_unitary(flat_ops(dops), Q2)), TOL, "kak_decompose", "KakDecomposition._decompose_ does not rebuild U")
     ok, k2 = guarded(F, "kak", cirq.kak_decomposition, cirq.MatrixGate(u), check_preconditions=False)
     if ok:
         _check_kak_obj(F, k2, u, info, "kak_decomposition(MatrixGate(U), check_preconditions=False)")
@@ -362,10 +366,10 @@ def run_kak(desc):
     if ok:
         d = np.asarray(d)
         form = d.shape == (4, 4) and np.allclose(d, np.diag(np.diag(d)), atol=1e-12) and np.allclose(np.abs(np.diag(d)), 1, atol=1e-9)
-        F.need(form, "extract_right_diag_form", f"extract_right_diag -> not a diagonal unitary: {fmt(d)}")
+        F.need(form, "extract_right_diag_form", lambda: f"extract_right_diag -> not a diagonal unitary: {fmt(d)}")
         if form and info["ncnot"] == 3:
             F.close("extract_right_diag", two_cnot_defect(u @ d), 1e-7, "extract_right_diag_class",
-                    f"U @ extract_right_diag(U) is not in the 2-CNOT class (Im tr(m)/sqrt(det) != 0), D={fmt(np.diag(d))}")
+                    lambda: f"U @ extract_right_diag(U) is not in the 2-CNOT class (Im tr(m)/sqrt(det) != 0), D={fmt(np.diag(d))}")
     return F.result()
 
 
@@ -412,14 +416,19 @@ def _cz_target_checks(F, ops, label, allow_partial):
     F.need(good_types, "cz_gate_types", f"{label}: operations other than 1-qubit gates and {'CZPow' if allow_partial else 'CZ'}: {[str(o) for o in ops if nq(o) != 1]}")
 
 
-def run_cz(desc):
+def run_cz_main(desc):
+    return run_cz(desc, full=False)
+
+
+def run_cz(desc, full=True):
+    """full=False: the four option combinations of two_qubit_matrix_to_cz_operations only."""
     u, info = s2().build(desc)
     F = Fails(f"S2{desc} = {info['name']}")
     a, b = Q2
     ncn = info["ncnot"]
     for allow_partial in (False, True):
         for clean in (True, False):
-            for atol in ((1e-8, 1e-5) if (clean and not allow_partial) else (1e-8,)):
+            for atol in ((1e-8, 1e-5) if (clean and not allow_partial and full) else (1e-8,)):
                 label = f"two_qubit_matrix_to_cz_operations(allow_partial_czs={allow_partial}, clean_operations={clean}, atol={atol})"
                 ok, ops = guarded(F, "cz", cirq.two_qubit_matrix_to_cz_operations, a, b, u, allow_partial_czs=allow_partial,
                                   clean_operations=clean, atol=atol)
@@ -433,8 +442,8 @@ def run_cz(desc):
                 F.need(n <= 3, "cz_count_bound", f"{label}: {n} CZ gates > 3")
                 if not allow_partial and ncn is not None and atol == 1e-8:
                     F.need(n == ncn, "cz_count", f"{label}: {n} CZ gates but the class {info['vc']} needs exactly {ncn}")
-                if allow_partial and info["nonzero"] is not None and atol == 1e-8:
-                    F.need(n <= info["nonzero"], "cz_partial_count", f"{label}: {n} partial CZ for {info['nonzero']} non-zero coefficients")
+    if not full:
+        return F.result()
     # diagonal + cz
     for allow_partial in (False, True):
         for clean in (True, False):
@@ -447,7 +456,7 @@ def run_cz(desc):
             ops = flat_ops(ops)
             d = np.asarray(d)
             form = d.shape == (4, 4) and np.allclose(d, np.diag(np.diag(d)), atol=1e-8) and np.allclose(np.abs(np.diag(d)), 1, atol=1e-8)
-            F.need(form, "diag_cz_form", f"{label}: D is not a diagonal unitary: {fmt(d)}")
+            F.need(form, "diag_cz_form", lambda: f"{label}: D is not a diagonal unitary: {fmt(d)}")
             F.close("diag_cz", L.phase_err(u, ops_unitary(ops, Q2) @ d), TOL, "diag_cz_unitary", f"{label}: Circuit(ops) @ D != V up to global phase")
             _cz_target_checks(F, ops, label, allow_partial)
             n = count2q(ops)
@@ -476,14 +485,19 @@ def run_cz(desc):
 # S2: sqrt-iSWAP synthesis
 
 
-def run_sqrt_iswap(desc):
+def run_sqrt_iswap_main(desc):
+    return run_sqrt_iswap(desc, full=False)
+
+
+def run_sqrt_iswap(desc, full=True):
+    """full=False: use_sqrt_iswap_inv=False, clean_operations=False only (all five required counts)."""
     u, info = s2().build(desc)
     F = Fails(f"S2{desc} = {info['name']}")
     a, b = Q2
     feas = info["sq_feas"]
-    for inv in (False, True):
+    for inv in ((False, True) if full else (False,)):
         target = cirq.SQRT_ISWAP_INV if inv else cirq.SQRT_ISWAP
-        for clean in (False, True):
+        for clean in ((False, True) if full else (False,)):
             for req in (None, 0, 1, 2, 3):
                 label = f"two_qubit_matrix_to_sqrt_iswap_operations(required_sqrt_iswap_count={req}, use_sqrt_iswap_inv={inv}, clean_operations={clean})"
                 ok, ops = guarded(F, "sqrt_iswap", cirq.two_qubit_matrix_to_sqrt_iswap_operations, a, b, u, required_sqrt_iswap_count=req,
@@ -514,19 +528,925 @@ def run_sqrt_iswap(desc):
     return F.result()
 
 
+
+
+# ------------------------------------------------------------------------------------------------
+# S2: other two-qubit targets (FSim x4, MS, Sycamore)
+
+FSIM_GATES = [
+    ("FSim(pi/2,0)", lambda: cirq.FSimGate(PI / 2, 0.0)),
+    ("ISWAP", lambda: cirq.ISWAP),
+    ("FSim(3pi/8+0.01,pi/4-0.01)", lambda: cirq.FSimGate(3 * PI / 8 + 0.01, PI / 4 - 0.01)),
+    ("FSim(5pi/8-0.01,-pi/4+0.01)", lambda: cirq.FSimGate(5 * PI / 8 - 0.01, -PI / 4 + 0.01)),
+    ("FSim(1.4,0.2)", lambda: cirq.FSimGate(1.4, 0.2)),
+    ("FSim(-pi/2,0.1)", lambda: cirq.FSimGate(-PI / 2, 0.1)),
+    ("ISWAP**-1", lambda: cirq.ISWAP ** -1),
+    ("ISWAP**0.8", lambda: cirq.ISWAP ** 0.8),
+    ("ISWAP**-1.2", lambda: cirq.ISWAP ** -1.2),
+    ("FSim(pi/2,pi/4-0.01)", lambda: cirq.FSimGate(PI / 2, PI / 4 - 0.01)),
+    ("FSim(3pi/8+0.01,0)", lambda: cirq.FSimGate(3 * PI / 8 + 0.01, 0.0)),
+    ("FSim(5pi/8-0.01,0.3)", lambda: cirq.FSimGate(5 * PI / 8 - 0.01, 0.3)),
+]
+FSIM_TOL = 1e-6  # the construction goes through arcsin(sqrt(.)) of quantities clamped at 1e-8: sqrt(1e-8)-scale errors are inherent
+
+
+def run_four_fsim(case):
+    desc, gi, form = case
+    u, info = s2().build(desc)
+    name, mk = FSIM_GATES[gi]
+    g = mk()
+    F = Fails(f"S2{desc} = {info['name']}; fsim_gate={name}; form={form}")
+    a, b = Q2
+    if form == 0:
+        ok, c = guarded(F, "four_fsim", cirq.decompose_two_qubit_interaction_into_four_fsim_gates, u, fsim_gate=g)
+        qs = Q2
+    else:
+        qs = [cirq.NamedQubit("b"), cirq.NamedQubit("a")]
+        ok, c = guarded(F, "four_fsim", cirq.decompose_two_qubit_interaction_into_four_fsim_gates, cirq.MatrixGate(u), fsim_gate=g, qubits=qs)
+    if not ok:
+        return F.result()
+    ops = list(c.all_operations())
+    F.close("four_fsim", L.exact_err(u, ops_unitary(ops, qs)), FSIM_TOL, "four_fsim_unitary", "decompose_two_qubit_interaction_into_four_fsim_gates does not rebuild U (incl. global phase)")
+    n = sum(1 for o in ops if nq(o) == 2 and o.gate == g)
+    others = [o for o in ops if not (nq(o) == 1 or is_gpo(o) or (nq(o) == 2 and o.gate == g))]
+    F.need(n == 4 and not others, "four_fsim_count", lambda: f"{n} copies of the fsim gate (exactly 4 documented); other multi-qubit ops: {[str(o) for o in others]}")
+    F.need(set(q for o in ops for q in o.qubits) <= set(qs), "four_fsim_qubits", "operations on foreign qubits")
+    return F.result()
+
+
+def run_ion_syc(desc):
+    u, info = s2().build(desc)
+    F = Fails(f"S2{desc} = {info['name']}")
+    a, b = Q2
+    for clean in (True, False):
+        label = f"two_qubit_matrix_to_ion_operations(clean_operations={clean})"
+        ok, ops = guarded(F, "ion", cirq.two_qubit_matrix_to_ion_operations, a, b, u, clean_operations=clean)
+        if ok:
+            ops = flat_ops(ops)
+            F.close("ion", L.phase_err(u, ops_unitary(ops, Q2)), TOL, "ion_unitary", f"{label} does not rebuild U up to global phase")
+            two = [o for o in ops if nq(o) != 1]
+            F.need(all(nq(o) == 2 and isinstance(o.gate, cirq.XXPowGate) for o in two), "ion_gate_types", lambda: f"{label}: non-MS multi-qubit ops {[str(o) for o in two]}")
+            F.need(len(two) <= 3, "ion_count_bound", f"{label}: {len(two)} MS gates > 3")
+    for clean in (True, False):
+        label = f"two_qubit_matrix_to_sycamore_operations(clean_operations={clean})"
+        ok, ops = guarded(F, "sycamore", cirq_google.two_qubit_matrix_to_sycamore_operations, a, b, u, clean_operations=clean)
+        if ok:
+            ops = flat_ops(ops)
+            F.close("sycamore", L.phase_err(u, ops_unitary(ops, Q2)), TOL, "sycamore_unitary", f"{label} does not rebuild U up to global phase")
+            two = [o for o in ops if nq(o) != 1]
+            F.need(all(nq(o) == 2 and o.gate == cirq_google.SYC for o in two), "sycamore_gate_types", lambda: f"{label}: non-SYC multi-qubit ops {[str(o) for o in two]}")
+            F.need(len(two) <= 6, "sycamore_count_bound", f"{label}: {len(two)} SYC gates > 6 (two per partial CZ, at most three partial CZ)")
+            if clean:
+                F.need(all(isinstance(o.gate, cirq.PhasedXZGate) for o in ops if nq(o) == 1), "sycamore_clean_types", f"{label}: single-qubit gates are not all PhasedXZ")
+    return F.result()
+
+
+# ------------------------------------------------------------------------------------------------
+# known-gate shortcuts: parameterized sqrt-iSWAP, known Sycamore ops, CPhase -> two FSim
+
+
+def t_grid():
+    g = gen()[0]
+    return (0.0, 0.25, 0.5, 1.0, 1.5, 2.0, -0.5, 2.5, g, 1 - 1e-7, 1 + 1e-7, 1e-7, -1.0, 3.0, 1.0 + 1e-10)
+
+
+ANGLES = None
+
+
+def angle_grid():
+    g = gen()[1]
+    return (0.0, PI / 4, PI / 2, PI, -PI / 2, 3 * PI / 2, g, 1e-7, PI - 1e-7)
+
+
+def param_cases():
+    nt = len(t_grid())
+    na = len(angle_grid())
+    cs = []
+    for inv in (0, 1):
+        for sym in (0, 1):
+            for k in (0, 1, 2):
+                cs += [(k, i, 0, inv, sym) for i in range(nt)]
+            cs += [(3, i, j, inv, sym) for i in range(na) for j in range(na)]
+    cs += [(4, 0, 0, 0, 0), (4, 1, 0, 1, 0)]
+    return cs
+
+
+def run_param_sqrt_iswap(case):
+    kind, i, j, inv, sym = case
+    a, b = Q2
+    F = Fails(f"parameterized_2q_op_to_sqrt_iswap_operations case {case}")
+    ts = sympy.Symbol("t")
+    ps = sympy.Symbol("p")
+    if kind == 4:
+        op = [cirq.XX(a, b) ** 0.3, cirq.CNOT(a, b)][i]
+        ok, r = guarded(F, "param_sqrt_iswap", cirq.parameterized_2q_op_to_sqrt_iswap_operations, op, use_sqrt_iswap_inv=bool(inv))
+        if ok:
+            F.need(r is None or r is NotImplemented, "param_sqrt_iswap_unknown", f"unknown gate {op} was decomposed: {r}")
+        return F.result()
+    if kind < 3:
+        t = t_grid()[i]
+        cls, ref = [(cirq.CZPowGate, G.czpow), (cirq.SwapPowGate, G.swappow), (cirq.ISwapPowGate, G.iswappow)][kind]
+        gate = cls(exponent=ts if sym else t)
+        want = ref(t)
+        resolver = {"t": t}
+        nm = f"{cls.__name__}(exponent={t!r}{' via symbol' if sym else ''})"
+    else:
+        th, ph = angle_grid()[i], angle_grid()[j]
+        gate = cirq.FSimGate(ts if sym else th, ps if sym else ph)
+        want = G.fsim(th, ph)
+        resolver = {"t": th, "p": ph}
+        nm = f"FSimGate({th!r},{ph!r}{' via symbols' if sym else ''})"
+    F.name = f"{nm}, use_sqrt_iswap_inv={bool(inv)}"
+    ok, r = guarded(F, "param_sqrt_iswap", cirq.parameterized_2q_op_to_sqrt_iswap_operations, gate.on(a, b), use_sqrt_iswap_inv=bool(inv))
+    if not ok:
+        return F.result()
+    if r is None or r is NotImplemented:
+        F.add("param_sqrt_iswap_refused", f"documented-supported gate refused: {r}")
+        return F.result()
+    ok, ops = guarded(F, "param_sqrt_iswap_resolve", lambda: [cirq.resolve_parameters(o, resolver) for o in flat_ops(r)])
+    if not ok:
+        return F.result()
+    F.close("param_sqrt_iswap", L.phase_err(want, ops_unitary(ops, Q2)), TOL, "param_sqrt_iswap_unitary", "decomposition does not rebuild the gate up to global phase")
+    target = cirq.SQRT_ISWAP_INV if inv else cirq.SQRT_ISWAP
+    two = [o for o in ops if nq(o) != 1]
+    F.need(all(nq(o) == 2 and o.gate == target for o in two), "param_sqrt_iswap_types", lambda: f"multi-qubit ops other than {target}: {[str(o) for o in two]}")
+    return F.result()
+
+
+def known_syc_ops():
+    a, b = Q2
+    g = gen()[0]
+    ex = (0.0, 0.25, 0.5, 1.0, 1.5, -0.5, g, 1e-7, 1 - 1e-7, 2.0, 3.0)
+    out = []
+    for qs in ((a, b), (b, a)):
+        out += [("SWAP", cirq.SWAP(*qs), True), ("ISWAP", cirq.ISWAP(*qs), True)]
+        for t in ex:
+            out.append((f"CZ**{t!r}", cirq.CZ(*qs) ** t, True))
+            out.append((f"CNOT**{t!r}", cirq.CNOT(*qs) ** t, True))
+            out.append((f"ZZ**{t!r}", cirq.ZZ(*qs) ** t, True))
+            out.append((f"PhasedISwap(phase_exponent={t!r}, exponent=1)", cirq.PhasedISwapPowGate(phase_exponent=t, exponent=1.0).on(*qs), True))
+            out.append((f"PhasedISwap(phase_exponent=0.25, exponent={t!r})", cirq.PhasedISwapPowGate(phase_exponent=0.25, exponent=t).on(*qs), True))
+            out.append((f"CircuitOp[SWAP, ZZ**{t!r}]", cirq.CircuitOperation(cirq.FrozenCircuit(cirq.SWAP(*qs), cirq.ZZ(*qs) ** t)), True))
+            out.append((f"CircuitOp[ZZ**{t!r}, SWAP]", cirq.CircuitOperation(cirq.FrozenCircuit(cirq.ZZ(*qs) ** t, cirq.SWAP(*qs))), True))
+        out.append(("tagged CZ", (cirq.CZ(*qs) ** 0.5).with_tags("x"), True))
+        out.append(("FSim(0.3,0.2)", cirq.FSimGate(0.3, 0.2).on(*qs), False))
+        out.append(("SWAP**0.5", cirq.SWAP(*qs) ** 0.5, False))
+        out.append(("ISWAP**0.5", cirq.ISWAP(*qs) ** 0.5, False))
+        out.append(("PhasedISwap(0.1, 0.3)", cirq.PhasedISwapPowGate(phase_exponent=0.1, exponent=0.3).on(*qs), False))
+    return out
+
+
+def run_known_syc(i):
+    name, op, known = known_syc_ops()[i]
+    F = Fails(f"known_2q_op_to_sycamore_operations({name} on {op.qubits})")
+    ok, r = guarded(F, "known_syc", cirq_google.known_2q_op_to_sycamore_operations, op)
+    if not ok:
+        return F.result()
+    if r is None:
+        if known:
+            F.add("known_syc_refused", "documented-known operation returned None")
+            return F.result()
+        return Res(skipped=True, nontrivial=False)
+    ops = flat_ops(r)
+    want = ops_unitary(flat_ops(cirq.decompose_once(op)) if isinstance(op.untagged, cirq.CircuitOperation) else [op], Q2)
+    F.close("known_syc", L.phase_err(want, ops_unitary(ops, Q2)), TOL, "known_syc_unitary", "decomposition does not rebuild the operation up to global phase")
+    two = [o for o in ops if nq(o) != 1]
+    F.need(all(nq(o) == 2 and o.gate == cirq_google.SYC for o in two), "known_syc_types", lambda: f"non-SYC multi-qubit ops {[str(o) for o in two]}")
+    return F.result()
+
+
+def cphase_cases():
+    g = gen()
+    ts = (0.0, 0.1, 0.25, 0.5, 0.75, 1.0, 1.25, 1.5, 1.9, -0.5, 2.5, g[0])
+    ths = (0.0, PI / 8, PI / 4, 3 * PI / 8, PI / 2, 5 * PI / 8, PI, -PI / 4, g[1])
+    phs = (0.0, PI / 6, PI / 2, PI, 3 * PI / 2, -PI / 2, 2 * PI - 0.3, g[2])
+    return ts, ths, phs
+
+
+def run_cphase_fsim(case):
+    i, j, k = case
+    ts, ths, phs = cphase_cases()
+    t, th, ph = ts[i], ths[j], phs[k]
+    F = Fails(f"decompose_cphase_into_two_fsim(CZ**{t!r}, fsim_gate=FSimGate({th!r},{ph!r}))")
+    # documented feasibility: |sin th| <= |sin(delta/4)| <= |sin(ph/2)| or reversed, for some parameter value of the same gate
+    lo, hi = sorted((abs(math.sin(th)), abs(math.sin(ph / 2))))
+    delta = -PI * t
+    svals = (abs(math.sin(delta / 4)), abs(math.cos(delta / 4)))
+    m = 1e-6
+    feasible = any(lo + m <= s <= hi - m for s in svals)
+    infeasible = all(s < lo - m or s > hi + m for s in svals)
+    denom = abs(math.sin(th) ** 2 - math.sin(ph / 2) ** 2)
+    fsim = cirq.FSimGate(th, ph)
+    qs = [cirq.NamedQubit("c"), cirq.NamedQubit("d")] if (i + j + k) % 2 else None
+    kw = {"qubits": qs} if qs else {}
+    ok, r = guarded(F, "cphase_fsim", cirq.decompose_cphase_into_two_fsim, cirq.CZPowGate(exponent=t), fsim_gate=fsim, allowed=(ValueError,), **kw)
+    if not ok:
+        if isinstance(r, ValueError):
+            if feasible and denom > 1e-6:
+                F.add("cphase_fsim_refused", f"ValueError although the documented condition holds (lo={lo:.6g}, hi={hi:.6g}, |sin(d/4)| candidates {svals}): {r}")
+                return F.result()
+            return Res(skipped=True, nontrivial=False)
+        return F.result()
+    ops = flat_ops(r)
+    qq = qs or Q2
+    F.close("cphase_fsim", L.exact_err(G.czpow(t), ops_unitary(ops, qq)), FSIM_TOL, "cphase_fsim_unitary", "operations do not rebuild CZ**t (global phase is documented to be accounted for)")
+    n = sum(1 for o in ops if nq(o) == 2 and o.gate == fsim)
+    others = [o for o in ops if not (nq(o) == 1 or is_gpo(o) or (nq(o) == 2 and o.gate == fsim))]
+    F.need(n == 2 and not others, "cphase_fsim_count", lambda: f"{n} fsim gates (exactly two documented), others {[str(o) for o in others]}")
+    if infeasible:
+        F.add("cphase_fsim_impossible", "a decomposition was returned although the documented feasibility condition fails")
+    return F.result()
+
+
+# ------------------------------------------------------------------------------------------------
+# linalg building blocks
+
+RAW = tuple(range(-5, 7))  # units of pi/8
+
+
+def canonicalize_cases(tier):
+    cs = [(0, a, b, c) for a in RAW for b in RAW for c in RAW]
+    cs += [(1, a, b, c) for a in range(len(L.BASES)) for b in range(len(L.SIGNS)) for c in (0, 1, 2)]
+    cs += [(2, a, 0, c) for a in range(L.N_GENERIC) for c in (0, 1, 2)]
+    return cs
+
+
+def run_canonicalize(case):
+    kind, a, b, c = case
+    exact = False
+    if kind == 0:
+        v = (a * L.UNIT, b * L.UNIT, c * L.UNIT)
+        vc = tuple(t * L.UNIT for t in L.canon_int((a, b, c)))
+        exact = True
+    elif kind == 1:
+        base, s = L.BASES[a], L.SIGNS[b]
+        v0 = tuple(base[i] + L.DELTA * s[i] for i in range(3))
+        v = L.scramble(v0, c)
+        vc = L.canon(v0)
+    else:
+        v0 = L.generic_points(gen())[a]
+        v = L.scramble(v0, c)
+        vc = L.canon(v0)
+    F = Fails(f"kak_canonicalize_vector{v}")
+    ok, k = guarded(F, "canonicalize", cirq.kak_canonicalize_vector, *v)
+    if ok:
+        info = {"vc": vc, "exact": exact}
+        _check_kak_obj(F, k, L.interaction(*v), info, "kak_canonicalize_vector", tol=1e-8)
+    return F.result()
+
+
+def run_kak_vector_batch(case):
+    """kak_vector on batched shapes must equal the per-matrix results and the reference vectors."""
+    lo, hi = case
+    descs = _S["kv_descs"][lo:hi]
+    built = [s2().build(d) for d in descs]
+    us = np.array([u for u, _ in built])
+    F = Fails(f"kak_vector batch of S2 descriptors [{lo}:{hi}] (first {descs[0]})")
+    n = len(us)
+    ok, v1 = guarded(F, "kak_vector_batch", cirq.kak_vector, us)
+    if not ok:
+        return F.result()
+    F.need(np.shape(v1) == (n, 3), "kak_vector_shape", f"shape {np.shape(v1)} for input {(n, 4, 4)}")
+    shapes = [(1, n), (n, 1)] + ([(2, n // 2)] if n % 2 == 0 else [])
+    for sh in shapes:
+        ok, v2 = guarded(F, "kak_vector_batch", cirq.kak_vector, us.reshape(sh + (4, 4)), check_preconditions=False)
+        if ok:
+            F.need(np.shape(v2) == sh + (3,), "kak_vector_shape", f"shape {np.shape(v2)} for input {sh + (4, 4)}")
+            if np.shape(v2) == sh + (3,):
+                F.close("kak_vector_batch", float(np.max(np.abs(np.reshape(v2, (n, 3)) - v1))), 1e-9, "kak_vector_batch_consistency", f"batched shape {sh} differs from flat batch")
+    ok, v3 = guarded(F, "kak_vector_batch", cirq.kak_vector, [u for u in us])
+    if ok:
+        F.close("kak_vector_batch", float(np.max(np.abs(np.asarray(v3) - v1))), 1e-9, "kak_vector_batch_consistency", "list input differs from array input")
+    for idx, (u, info) in enumerate(built):
+        v = tuple(float(t) for t in v1[idx])
+        F.need(L.is_canonical(v, face_tol=1e-8), "kak_vector_canonical", f"entry {idx} ({info['name']}): {v} not canonical")
+        if _robust_canon(info):
+            F.close("kak_vector", max(abs(p - q) for p, q in zip(v, info["vc"])), 1e-7, "kak_vector_value", f"entry {idx} ({info['name']}): {v} != reference {info['vc']}")
+    ok, v0 = guarded(F, "kak_vector_batch", cirq.kak_vector, np.zeros((0, 4, 4)))
+    if ok:
+        F.need(np.shape(v0) == (0, 3), "kak_vector_shape", f"empty input gives shape {np.shape(v0)}")
+    return F.result()
+
+
+def orthos(n, seed):
+    """A few n x n orthogonal matrices: identity, a permutation with a sign, generic rotation."""
+    rng = np.random.RandomState(77 + seed + n)
+    q, r = np.linalg.qr(rng.randn(n, n))
+    q = q * np.sign(np.diag(r))
+    p = np.eye(n)[::-1].copy()
+    p[0] *= -1
+    return [np.eye(n), p, q]
+
+
+DIAG_PATTERNS = {
+    4: [(1, 1, 1, 1), (2, 1, 1, 0), (1, 1, 0, 0), (0, 0, 0, 0), (3, 2, 1, 0.5), (2, 2, 1, 1), (1, 1, 1, 0), (5, 0, 0, 0),
+        (1, 1, 1 - 1e-8, 0.5), (1, 1e-9, 0, 0), (2, 2, 2, 1), (1, 0.5, 0.5, 0.5)],
+    3: [(1, 1, 1), (2, 1, 0), (1, 1, 0), (0, 0, 0), (3, 2, 1)],
+    2: [(1, 1), (1, 0), (0, 0), (2, 1)],
+    1: [(1,), (0,)],
+}
+SECOND_PATTERNS = {
+    4: [(1, 2, 3, 4), (1, 1, -1, -1), (0, 0, 0, 0), (0.5, -0.5, 0.5, 2), (1, -1, 1, -1), (2, 2, 2, 2), (0, 1, 0, 1)],
+    3: [(1, 2, 3), (1, 1, -1), (0, 0, 0), (1, -1, 0)],
+    2: [(1, 2), (1, -1), (0, 0)],
+    1: [(2,), (0,)],
+}
+
+
+def bidiag_cases(tier):
+    cs = []
+    for n in (1, 2, 3, 4):
+        for i in range(len(DIAG_PATTERNS[n])):
+            for j in range(len(SECOND_PATTERNS[n])):
+                for l in range(3):
+                    for r in range(3):
+                        cs.append((n, i, j, l, r))
+    return cs
+
+
+def run_bidiag_pair(case):
+    n, i, j, l, r = case
+    d1 = np.diag(DIAG_PATTERNS[n][i]).astype(float)
+    d2 = np.diag(SECOND_PATTERNS[n][j]).astype(float)
+    Lm, Rm = orthos(n, _S["seed"])[l], orthos(n, _S["seed"] + 1)[r]
+    m1 = Lm @ d1 @ Rm
+    m2 = Lm @ d2 @ Rm
+    F = Fails(f"bidiagonalize_real_matrix_pair_with_symmetric_products: mat1 = L{l} diag{DIAG_PATTERNS[n][i]} R{r}, mat2 = L{l} diag{SECOND_PATTERNS[n][j]} R{r}")
+    ok, res = guarded(F, "bidiag_pair", cirq.bidiagonalize_real_matrix_pair_with_symmetric_products, m1, m2)
+    if ok:
+        lf, rt = res
+        for nm, o in (("L", lf), ("R", rt)):
+            F.need(np.allclose(o @ o.T, np.eye(n), atol=1e-8), "bidiag_pair_orthogonal", f"{nm} is not orthogonal")
+        for nm, m in (("mat1", m1), ("mat2", m2)):
+            d = lf @ m @ rt
+            F.close("bidiag_pair", float(np.max(np.abs(d - np.diag(np.diag(d))))) if n else 0.0, TOL, "bidiag_pair_diagonal", lambda: f"L @ {nm} @ R is not diagonal: {fmt(d)}")
+    # symmetric / commuting-pair diagonalisation on the same spectra
+    sym = Lm @ d2 @ Lm.T
+    ok, p = guarded(F, "diag_sym", cirq.diagonalize_real_symmetric_matrix, sym)
+    if ok:
+        F.need(np.allclose(p @ p.T, np.eye(n), atol=1e-8), "diag_sym_orthogonal", "P is not orthogonal")
+        d = p.T @ sym @ p
+        F.close("diag_sym", float(np.max(np.abs(d - np.diag(np.diag(d))))), TOL, "diag_sym_diagonal", "P.T @ M @ P is not diagonal")
+    if l == 0 and r == 0:
+        ok, e = guarded(F, "diag_sym", cirq.diagonalize_real_symmetric_matrix, sym + np.triu(np.ones((n, n)), 1), allowed=(ValueError,))
+        if n > 1:
+            F.need(not ok, "diag_sym_precondition", "non-symmetric matrix accepted")
+    # commuting pair: descending diagonal with degenerate blocks x block-diagonal symmetric matrix
+    dd = np.diag(sorted(DIAG_PATTERNS[n][i], reverse=True)).astype(float)
+    blocks = np.zeros((n, n))
+    vals = np.diag(dd)
+    start = 0
+    while start < n:
+        end = start + 1
+        while end < n and vals[end] == vals[start]:
+            end += 1
+        k = end - start
+        o = orthos(k, _S["seed"] + start)[l if k > 1 else 0]
+        blocks[start:end, start:end] = o @ np.diag(SECOND_PATTERNS[n][j][start:end]) @ o.T
+        start = end
+    ok, p = guarded(F, "diag_pair", cirq.diagonalize_real_symmetric_and_sorted_diagonal_matrices, blocks, dd)
+    if ok:
+        F.need(np.allclose(p @ p.T, np.eye(n), atol=1e-8), "diag_pair_orthogonal", "P is not orthogonal")
+        d = p.T @ blocks @ p
+        F.close("diag_pair", float(np.max(np.abs(d - np.diag(np.diag(d))))), TOL, "diag_pair_diagonal", lambda: f"P.T @ symmetric @ P is not diagonal for diag {tuple(vals)}: {fmt(d)}")
+        F.close("diag_pair_fix", L.exact_err(dd, p.T @ dd @ p), TOL, "diag_pair_fixes_diagonal", f"P.T @ diagonal @ P != diagonal for {tuple(vals)}")
+    return F.result()
+
+
+def so4_cases(tier):
+    n = len(L.s1_small(gen()))
+    return [(i, j, f) for i in range(n) for j in range(n) for f in ((0, 1) if (i + j) % 7 == 0 else (0,))]
+
+
+def run_so4(case):
+    i, j, flip = case
+    sm = L.s1_small(gen())
+    a = L.to_su2(L.s1_matrix(sm[i], gen()))
+    b = L.to_su2(L.s1_matrix(sm[j], gen()))
+    mat = L.dag(L.MAGIC) @ np.kron(a, b) @ L.MAGIC
+    F = Fails(f"so4_to_magic_su2s(Mag^dag kron(SU2[{sm[i]}], SU2[{sm[j]}]) Mag){' with a row negated (det -1)' if flip else ''}")
+    if np.max(np.abs(mat.imag)) > 1e-12:
+        raise core.HarnessError("magic-basis image of SU(2)xSU(2) is not real")
+    mat = mat.real.copy()
+    if flip:
+        mat[0] *= -1
+        ok, r = guarded(F, "so4", cirq.so4_to_magic_su2s, mat, allowed=(ValueError,))
+        F.need(not ok, "so4_precondition", "a det=-1 orthogonal matrix was accepted")
+        return F.result()
+    ok, r = guarded(F, "so4", cirq.so4_to_magic_su2s, mat)
+    if ok:
+        ra, rb = r
+        F.need(su2_ok(ra) and su2_ok(rb), "so4_su2", lambda: f"factors not in SU(2): {fmt(ra)}, {fmt(rb)}")
+        F.close("so4", L.exact_err(mat, L.dag(L.MAGIC) @ np.kron(ra, rb) @ L.MAGIC), TOL, "so4_product", "Mag^dag kron(A,B) Mag != mat")
+    return F.result()
+
+
+SCALARS = (1, 1j, -1, None)
+
+
+def kron_cases(tier):
+    d = L.s1_descs(tier)
+    if tier == "quick":
+        idx = list(range(0, len(d), 4))
+    else:
+        idx = list(range(len(d)))
+    return [(i, j) for i in idx for j in idx]
+
+
+def run_kron(case):
+    i, j = case
+    d = L.s1_descs()
+    a = L.s1_matrix(d[i], gen())
+    b = L.s1_matrix(d[j], gen())
+    sc = SCALARS[(i + 2 * j) % 4]
+    sc = np.exp(1j * gen()[2]) if sc is None else sc
+    m = sc * np.kron(a, b)
+    F = Fails(f"kron_factor_4x4_to_2x2s({sc:.4g} * kron(S1{d[i]}, S1{d[j]}))")
+    ok, r = guarded(F, "kron_factor", cirq.kron_factor_4x4_to_2x2s, m)
+    if ok:
+        g, f1, f2 = r
+        F.close("kron_factor", L.exact_err(m, g * np.kron(f1, f2)), TOL, "kron_factor_product", "g * kron(f1, f2) != matrix")
+        F.need(abs(np.linalg.det(f1) - 1) < 1e-7 and abs(np.linalg.det(f2) - 1) < 1e-7, "kron_factor_det", lambda: f"factors not unit determinant: {np.linalg.det(f1)}, {np.linalg.det(f2)}")
+    if i == j:
+        bad_m = m.copy()
+        bad_m[0, 0] += 0.5
+        bad_m[3, 3] -= 0.25
+        ok, r = guarded(F, "kron_factor", cirq.kron_factor_4x4_to_2x2s, bad_m, allowed=(ValueError,))
+        if ok:
+            g, f1, f2 = r
+            F.close("kron_factor_bad", L.exact_err(bad_m, g * np.kron(f1, f2)), 1e-4, "kron_factor_accepts_non_product", "a non-product matrix was 'factored'")
+    return F.result()
+
+
+def eig_inputs():
+    """Normal matrices for unitary_eig / map_eigenvalues / bidiagonalize_unitary: S2 sample, S3, degenerate, Hermitian."""
+    out = []
+    sm = L.s2_descs("quick", "small")
+    for d in sm[::7]:
+        u, info = s2().build(d)
+        out.append((info["name"], u))
+    for nm, u in s3():
+        out.append((nm, u))
+    g3 = E.generic_unitary(3, 60 + _S["seed"])
+    for nm, lam in (("deg(1,1,-1)", (1, 1, -1)), ("deg(1,1,1)", (1, 1, 1)), ("deg(i,i,e^{i g})", (1j, 1j, np.exp(1j * gen()[0]))),
+                    ("near-deg", (1, np.exp(1e-7j), np.exp(2e-7j))), ("near-deg2", (1, np.exp(1e-9j), -1))):
+        out.append((f"3x3 V diag{nm} V^dag", (g3 * np.asarray(lam, dtype=complex)) @ L.dag(g3)))
+    g4 = E.generic_unitary(4, 61 + _S["seed"])
+    for nm, lam in (("hermitian(1,2,2,-3)", (1, 2, 2, -3)), ("hermitian(0,0,0,0)", (0, 0, 0, 0)), ("normal(1+i,1+i,2,0)", (1 + 1j, 1 + 1j, 2, 0))):
+        out.append((f"4x4 V diag{nm} V^dag", (g4 * np.asarray(lam, dtype=complex)) @ L.dag(g4)))
+    out.append(("1x1", np.array([[np.exp(0.3j)]])))
+    return out
+
+
+def run_eig(i):
+    nm, m = _S["eig_inputs"][i]
+    F = Fails(f"normal matrix #{i}: {nm}")
+    _check_eig(F, m, tag=f"{nm}: ")
+    if L.is_unitary(m):
+        _check_bidiag_unitary(F, m, nm)
+    else:
+        ok, r = guarded(F, "bidiag_unitary", cirq.bidiagonalize_unitary_with_special_orthogonals, m, allowed=(ValueError,))
+        F.need(not ok, "bidiag_unitary_precondition", "non-unitary accepted")
+    if i == 0:
+        nn = np.array([[1, 1], [0, 1]], dtype=complex)
+        ok, r = guarded(F, "unitary_eig", cirq.unitary_eig, nn, allowed=(ValueError,))
+        F.need(not ok, "unitary_eig_precondition", "non-normal matrix accepted by unitary_eig")
+    return F.result()
+
+
+# ------------------------------------------------------------------------------------------------
+# S3 / n-qubit
+
+
+def run_three_qubit(i):
+    nm, u = s3()[i]
+    F = Fails(f"S3[{i}] = {nm}")
+    ok, ops = guarded(F, "three_qubit", cirq.three_qubit_matrix_to_operations, *Q3, u)
+    if ok:
+        ops = flat_ops(ops)
+        F.close("three_qubit", L.phase_err(u, ops_unitary(ops, Q3)), TOL, "three_qubit_unitary", "three_qubit_matrix_to_operations does not rebuild U up to global phase")
+        two = [o for o in ops if nq(o) != 1]
+        F.need(all(nq(o) == 2 and (o.gate == cirq.CZ or o.gate == cirq.CNOT) for o in two), "three_qubit_types", lambda: f"multi-qubit ops other than CZ/CNOT: {sorted({str(o.gate) for o in two})}")
+        F.need(len(two) <= 20, "three_qubit_count", f"{len(two)} two-qubit gates (module documents at most 20 CZ/CNOT)")
+        F.count("max_two_qubit_gates", 0)
+        F.counters["max_two_qubit_gates"] = max(F.counters.get("max_two_qubit_gates", 0), len(two))
+    return F.result()
+
+
+SHANNON_TOL = 1e-6  # the docstring warns that accuracy is limited by np.linalg.eig; upstream tests use 1e-6 on structured inputs
+
+
+def shannon_inputs(tier):
+    out = []
+    s1d = L.s1_descs()
+    for d in s1d[::16]:
+        out.append((1, f"S1{d}", L.s1_matrix(d, gen())))
+    for d in L.s2_descs("quick", "small")[::(9 if tier == "quick" else 3)]:
+        u, info = s2().build(d)
+        out.append((2, info["name"], u))
+    for nm, u in s3():
+        out.append((3, nm, u))
+    if tier != "quick":
+        g4 = E.generic_unitary(16, 70 + _S["seed"])
+        four = [("I16", np.eye(16, dtype=complex)), ("generic16", g4), ("CCCZ", np.diag([1] * 15 + [-1]).astype(complex)),
+                ("QFT4", G.qft(4)), ("H(x)CCX", np.kron(L.H, G.ccxpow(1))), ("CSWAP(x)S", np.kron(G.cswap(), L.S)),
+                ("mux(generic8,generic8')", G.block_diag(E.generic_unitary(8, 71 + _S["seed"]), E.generic_unitary(8, 72 + _S["seed"]))),
+                ("SWAP(x)iSWAP", np.kron(G.swappow(1), G.iswappow(1))), ("CZ(x)CZ", np.kron(G.czpow(1), G.czpow(1)))]
+        for nm, u in four:
+            out.append((4, nm, u))
+    return out
+
+
+def run_shannon(i):
+    n, nm, u = _S["shannon"][i]
+    qs = cirq.LineQubit.range(n)
+    F = Fails(f"quantum_shannon_decomposition n={n} input {nm}")
+    ok, ops = guarded(F, "shannon", lambda: list(cirq.quantum_shannon_decomposition(qs, u)))
+    if ok:
+        ops = flat_ops(ops)
+        F.close(f"shannon_n{n}", L.exact_err(u, ops_unitary(ops, qs)), SHANNON_TOL, "shannon_unitary", "quantum_shannon_decomposition does not rebuild U (global phase is documented to be preserved)")
+        big = [o for o in ops if nq(o) > 2]
+        F.need(not big, "shannon_types", lambda: f"operations on more than two qubits: {[str(o) for o in big]}")
+        two = [o for o in ops if nq(o) == 2]
+        F.need(all(isinstance(o.gate, (cirq.CZPowGate, cirq.CXPowGate)) for o in two), "shannon_types", lambda: f"two-qubit gates other than CZ/CNOT powers: {sorted({str(o.gate) for o in two})}")
+    return F.result()
+
+
+def mcx_cases():
+    cs = []
+    for m in range(0, 5):
+        for f in range(0, 3):
+            for layout in (0, 1):
+                cs.append((m, f, layout))
+    return cs
+
+
+def _layout(n, layout):
+    qs = cirq.LineQubit.range(n)
+    return qs if layout == 0 else qs[::-1]
+
+
+def run_mcx(case):
+    m, f, layout = case
+    n = m + 1 + f
+    allq = cirq.LineQubit.range(n)
+    perm = _layout(n, layout)
+    controls, target, free = list(perm[:m]), perm[m], list(perm[m + 1:])
+    F = Fails(f"decompose_multi_controlled_x(controls={controls}, target={target}, free_qubits={free})")
+    ok, ops = guarded(F, "mcx", cirq.decompose_multi_controlled_x, controls, target, free)
+    if ok:
+        ops = flat_ops(ops)
+        idx = {q: i for i, q in enumerate(allq)}
+        want = E.embed(G.controlled(L.X, (2,) * m, [(1,) * m]), [idx[q] for q in controls + [target]], (2,) * n)
+        F.close("mcx", L.phase_err(want, ops_unitary(ops, allq)), TOL, "mcx_unitary", "operations do not implement C^m X (x) identity on the free qubits")
+        badops = [o for o in ops if not (nq(o) == 1 or o.gate == cirq.CNOT or o.gate == cirq.CCNOT)]
+        F.need(not badops, "mcx_types", lambda: f"operations other than 1-qubit/CNOT/CCNOT: {[str(o) for o in badops[:5]]}")
+        F.need(set(q for o in ops for q in o.qubits) <= set(allq), "mcx_qubits", "foreign qubits used")
+    return F.result()
+
+
+def mcrot_cases():
+    n = len(L.s1_small(gen()))
+    return [(m, i, su, layout) for m in range(0, 5) for i in range(n) for su in (0, 1) for layout in ((0, 1) if i % 5 == 0 else (0,))]
+
+
+def run_mcrot(case):
+    m, i, su, layout = case
+    d = L.s1_small(gen())[i]
+    mat = L.s1_matrix(d, gen())
+    if su:
+        mat = L.to_su2(mat)
+    n = m + 1
+    allq = cirq.LineQubit.range(n)
+    perm = _layout(n, layout)
+    controls, target = list(perm[:m]), perm[m]
+    F = Fails(f"decompose_multi_controlled_rotation(S1{d}{' normalised to SU(2)' if su else ''}, controls={controls}, target={target})")
+    ok, ops = guarded(F, "mcrot", cirq.decompose_multi_controlled_rotation, mat, controls, target)
+    if ok:
+        ops = flat_ops(ops)
+        idx = {q: k for k, q in enumerate(allq)}
+        want = E.embed(G.controlled(mat, (2,) * m, [(1,) * m]), [idx[q] for q in controls + [target]], (2,) * n)
+        F.close("mcrot", L.phase_err(want, ops_unitary(ops, allq)), TOL, "mcrot_unitary", "operations do not implement the multi-controlled rotation")
+        badops = [o for o in ops if not (nq(o) == 1 or o.gate == cirq.CNOT or o.gate == cirq.CCNOT)]
+        F.need(not badops, "mcrot_types", lambda: f"operations other than 1-qubit/CNOT/CCNOT: {[str(o) for o in badops[:5]]}")
+    return F.result()
+
+
+# ------------------------------------------------------------------------------------------------
+# two-qubit state preparation
+
+
+def stabilizer_states_2q():
+    gens = [np.kron(L.H, L.I2), np.kron(L.I2, L.H), np.kron(L.S, L.I2), np.kron(L.I2, L.S), G.cxpow(1)]
+
+    def norm(v):
+        k = next(i for i in range(4) if abs(v[i]) > 1e-9)
+        return v * (abs(v[k]) / v[k])
+
+    start = norm(np.array([1, 0, 0, 0], dtype=complex))
+    seen = {tuple(np.round(start, 6)): start}
+    order = [start]
+    frontier = [start]
+    while frontier:
+        nxt = []
+        for v in frontier:
+            for g in gens:
+                w = norm(g @ v)
+                k = tuple(np.round(w + 0.0, 6))
+                if k not in seen:
+                    seen[k] = w
+                    order.append(w)
+                    nxt.append(w)
+        frontier = nxt
+    if len(order) != 60:
+        raise core.HarnessError(f"{len(order)} two-qubit stabilizer states instead of 60")
+    return order
+
+
+def prep_states():
+    out = [(f"stabilizer#{i}", v, None) for i, v in enumerate(stabilizer_states_2q())]
+    ga, gb = E.generic_state(2, 1 + _S["seed"]), E.generic_state(2, 2 + _S["seed"])
+    out.append(("generic product", np.kron(ga, gb), 0))
+    for k in range(3):
+        out.append((f"generic entangled#{k}", E.generic_state(4, 3 + k + _S["seed"]), 1))
+    u, w = E.generic_unitary(2, 5 + _S["seed"]), E.generic_unitary(2, 6 + _S["seed"])
+    for s1 in (1e-9, 1e-5, 1e-3, 1e-2, 0.3, math.sqrt(0.5) - 1e-7, math.sqrt(0.5)):
+        s0 = math.sqrt(1 - s1 * s1)
+        for nm, (a, b) in (("computational", (L.I2, L.I2)), ("generic", (u, w))):
+            st = s0 * np.kron(a[:, 0], b[:, 0]) + s1 * np.kron(a[:, 1], b[:, 1])
+            ent = 1 if s1 >= 1e-3 else (0 if s1 < 1e-8 else None)
+            out.append((f"Schmidt({s0:.9g},{s1:.3g}) in {nm} basis", st, ent))
+    out.append(("1j*|11>", np.array([0, 0, 0, 1j], dtype=complex), 0))
+    out.append(("(|00>+|11>)*i/sqrt2", np.array([1j, 0, 0, 1j], dtype=complex) / math.sqrt(2), 1))
+    return out
+
+
+PREP_TOL = 1e-6  # the routines compute an intermediate state in complex64 (documented in code): single-precision round-off
+
+
+def run_state_prep(i):
+    nm, st, ent = _S["prep"][i]
+    a, b = Q2
+    tgt = st / np.linalg.norm(st)
+    schmidt = np.linalg.svd(tgt.reshape(2, 2), compute_uv=False)
+    if ent is None and nm.startswith("stabilizer"):
+        ent = 1 if schmidt[1] > 0.1 else 0
+    F = Fails(f"state {nm} = {fmt(st)}")
+    routines = [
+        ("prepare_two_qubit_state_using_cz", lambda: cirq.prepare_two_qubit_state_using_cz(a, b, st), lambda g: g == cirq.CZ),
+        ("prepare_two_qubit_state_using_iswap(use_iswap_inv=False)", lambda: cirq.prepare_two_qubit_state_using_iswap(a, b, st, use_iswap_inv=False), lambda g: g == cirq.ISWAP),
+        ("prepare_two_qubit_state_using_iswap(use_iswap_inv=True)", lambda: cirq.prepare_two_qubit_state_using_iswap(a, b, st, use_iswap_inv=True), lambda g: g == cirq.ISWAP_INV),
+        ("prepare_two_qubit_state_using_sqrt_iswap(use_sqrt_iswap_inv=True)", lambda: cirq.prepare_two_qubit_state_using_sqrt_iswap(a, b, st, use_sqrt_iswap_inv=True), lambda g: g == cirq.SQRT_ISWAP_INV),
+        ("prepare_two_qubit_state_using_sqrt_iswap(use_sqrt_iswap_inv=False)", lambda: cirq.prepare_two_qubit_state_using_sqrt_iswap(a, b, st, use_sqrt_iswap_inv=False), lambda g: g == cirq.SQRT_ISWAP),
+    ]
+    for label, call, is_target in routines:
+        ok, ops = guarded(F, "state_prep", call)
+        if not ok:
+            continue
+        ops = flat_ops(ops)
+        got = ops_unitary(ops, Q2)[:, 0]
+        F.close("state_prep", L.phase_err(tgt, got), PREP_TOL, "state_prep_state", f"{label}: circuit|00> differs from the requested state up to global phase (Schmidt coefficients {tuple(schmidt)})")
+        two = [o for o in ops if nq(o) != 1]
+        F.need(all(nq(o) == 2 and is_target(o.gate) for o in two) and len(two) <= 1, "state_prep_types", lambda: f"{label}: multi-qubit ops {[str(o) for o in two]} (at most one target gate documented)")
+        if ent is not None:
+            F.need(len(two) == ent, "state_prep_count", f"{label}: {len(two)} entangling gates for a{'n entangled' if ent else ' product'} state (documented: exactly {ent})")
+    return F.result()
+
+
+# ------------------------------------------------------------------------------------------------
+# Clifford tableaux
+
+PAULI1 = {(0, 0): L.I2, (1, 0): L.X, (0, 1): L.Z, (1, 1): L.Y}
+
+
+def tableau_from_unitary(u, n):
+    """(xs, zs, rs) rows: images U P U^dag of X_0..X_{n-1}, Z_0..Z_{n-1}; Y for x=z=1; r = sign bit."""
+    xs = np.zeros((2 * n, n), dtype=bool)
+    zs = np.zeros((2 * n, n), dtype=bool)
+    rs = np.zeros(2 * n, dtype=bool)
+    strings = list(itertools.product(((0, 0), (1, 0), (0, 1), (1, 1)), repeat=n))
+    mats = [E.kron(*[PAULI1[p] for p in s]) for s in strings]
+    row = 0
+    for base in (L.X, L.Z):
+        for q in range(n):
+            p = E.kron(*[base if k == q else L.I2 for k in range(n)])
+            img = u @ p @ L.dag(u)
+            found = False
+            for s, m in zip(strings, mats):
+                c = np.trace(L.dag(m) @ img) / (2 ** n)
+                if abs(abs(c) - 1) < 1e-6:
+                    if abs(c.imag) > 1e-6:
+                        return None
+                    for k in range(n):
+                        xs[row, k], zs[row, k] = bool(s[k][0]), bool(s[k][1])
+                    rs[row] = c.real < 0
+                    found = True
+                    break
+            if not found:
+                return None
+            row += 1
+    return xs, zs, rs
+
+
+def clifford_group_tableaux(n):
+    """Closure of the H/S/CNOT tableaux under CliffordTableau.then (BFS); keys are (xs, zs, rs) bytes."""
+    gens = []
+    for q in range(n):
+        for g in (cirq.H, cirq.S):
+            t = cirq.CliffordTableau(n)
+            st = cirq.CliffordTableauSimulationState(tableau=t, qubits=cirq.LineQubit.range(n), prng=np.random.RandomState(0))
+            cirq.act_on(g, st, [cirq.LineQubit(q)])
+            gens.append(t)
+    if n == 2:
+        t = cirq.CliffordTableau(n)
+        st = cirq.CliffordTableauSimulationState(tableau=t, qubits=cirq.LineQubit.range(n), prng=np.random.RandomState(0))
+        cirq.act_on(cirq.CNOT, st, cirq.LineQubit.range(2))
+        gens.append(t)
+
+    def key(t):
+        return (t.xs.tobytes(), t.zs.tobytes(), t.rs.tobytes())
+
+    ident = cirq.CliffordTableau(n)
+    seen = {key(ident): 0}
+    order = [ident]
+    frontier = [ident]
+    while frontier:
+        nxt = []
+        for t in frontier:
+            for g in gens:
+                c = t.then(g)
+                k = key(c)
+                if k not in seen:
+                    seen[k] = len(order)
+                    order.append(c)
+                    nxt.append(c)
+        frontier = nxt
+    return order
+
+
+def symplectic_2q_direct():
+    """All 4x4 binary symplectic matrices [xs|zs] (rows = images of X0, X1, Z0, Z1), by brute force."""
+    J = np.zeros((4, 4), dtype=int)
+    J[0, 2] = J[1, 3] = J[2, 0] = J[3, 1] = 1   # column order (x0, x1, z0, z1)
+    vecs = np.array(list(itertools.product((0, 1), repeat=4)))
+    sp = (vecs @ J @ vecs.T) % 2   # symplectic products of all pairs of 4-bit vectors
+    out = []
+    for a in range(1, 16):          # image of X0
+        for c in range(1, 16):      # image of Z0
+            if sp[a, c] != 1:
+                continue
+            for b in range(1, 16):  # image of X1
+                if sp[a, b] or sp[c, b]:
+                    continue
+                for d in range(1, 16):  # image of Z1
+                    if sp[a, d] or sp[c, d] or sp[b, d] != 1:
+                        continue
+                    out.append((a, b, c, d))
+    if len(out) != 720:
+        raise core.HarnessError(f"{len(out)} symplectic matrices instead of 720")
+    return out, vecs
+
+
+def clifford_inputs(tier):
+    one = clifford_group_tableaux(1)
+    if len(one) != 24:
+        raise core.HarnessError(f"{len(one)} one-qubit tableaux")
+    items = [(1, t.xs.copy(), t.zs.copy(), t.rs.copy()) for t in one]
+    if tier == "quick":
+        sym, vecs = symplectic_2q_direct()
+        for (a, b, c, d) in sym:
+            rows = vecs[[a, b, c, d]]
+            for sg in ((0, 0, 0, 0), (1, 0, 1, 0), (0, 1, 1, 1), (1, 1, 1, 1)):
+                items.append((2, rows[:, :2].astype(bool), rows[:, 2:].astype(bool), np.array(sg, dtype=bool)))
+    else:
+        two = clifford_group_tableaux(2)
+        if len(two) != 11520:
+            raise core.HarnessError(f"{len(two)} two-qubit tableaux instead of 11520")
+        items += [(2, t.xs.copy(), t.zs.copy(), t.rs.copy()) for t in two]
+    return items
+
+
+def run_clifford(i):
+    n, xs, zs, rs = _S["cliff"][i]
+    qs = cirq.LineQubit.range(n)
+    F = Fails(f"CliffordTableau n={n} xs={xs.astype(int).tolist()} zs={zs.astype(int).tolist()} rs={rs.astype(int).tolist()}")
+    t = cirq.CliffordTableau(n, rs=rs.copy(), xs=xs.copy(), zs=zs.copy())
+    ok, ops = guarded(F, "clifford", cirq.decompose_clifford_tableau_to_operations, qs, t)
+    if ok:
+        ops = flat_ops(ops)
+        F.need(all(nq(o) <= 2 for o in ops), "clifford_types", "operations on more than two qubits")
+        got = tableau_from_unitary(ops_unitary(ops, qs), n)
+        if got is None:
+            F.add("clifford_not_clifford", f"returned operations are not Clifford: {[str(o) for o in ops]}")
+        else:
+            gx, gz, gr = got
+            same = np.array_equal(gx, xs) and np.array_equal(gz, zs) and np.array_equal(gr, rs)
+            F.need(same, "clifford_tableau", lambda: f"operations {[str(o) for o in ops]} conjugate X_i,Z_i to xs={gx.astype(int).tolist()} zs={gz.astype(int).tolist()} rs={gr.astype(int).tolist()}")
+        F.need(np.array_equal(t.xs, xs) and np.array_equal(t.zs, zs) and np.array_equal(t.rs, rs), "clifford_mutates_input", "the input tableau was modified")
+    return F.result()
+
+
+def _clifford_selftest():
+    """The (xs, zs, rs) convention used by the oracle must reproduce the generator tableaux of H, S, CNOT."""
+    for g, m, n in ((cirq.H, L.H, 1), (cirq.S, L.S, 1), (cirq.CNOT, G.cxpow(1), 2)):
+        t = cirq.CliffordTableau(n)
+        st = cirq.CliffordTableauSimulationState(tableau=t, qubits=cirq.LineQubit.range(n), prng=np.random.RandomState(0))
+        cirq.act_on(g, st, cirq.LineQubit.range(n))
+        x, z, r = tableau_from_unitary(m, n)
+        if not (np.array_equal(x, t.xs) and np.array_equal(z, t.zs) and np.array_equal(r, t.rs)):
+            raise core.HarnessError(f"tableau convention mismatch on generator {g}")
+
+
+# ------------------------------------------------------------------------------------------------
+# gate tabulation (heuristic): the reported structure must be what it says
+
+
+def _tabulation():
+    if _S.get("tab") is None:
+        base = G.fsim(PI / 2, PI / 6)
+        _S["tab"] = cirq.two_qubit_gate_product_tabulation(base, 0.05, sample_scaling=20, random_state=np.random.RandomState(11))
+    return _S["tab"]
+
+
+def run_tabulation(desc):
+    u, info = s2().build(desc)
+    tab = _tabulation()
+    F = Fails(f"S2{desc} = {info['name']}; TwoQubitGateTabulation(SYC, max_infidelity=0.05, sample_scaling=20, seed 11)")
+    ok, r = guarded(F, "tabulation", tab.compile_two_qubit_gate, u)
+    if not ok:
+        return F.result()
+    loc = r.local_unitaries
+    prod = np.kron(*loc[0])
+    for k0, k1 in loc[1:]:
+        prod = np.kron(k0, k1) @ tab.base_gate @ prod
+    F.close("tabulation_actual", L.phase_err(r.actual_gate, prod), 1e-7, "tabulation_actual_gate", "actual_gate is not k_N.base.k_{N-1}...base.k_0 of the returned local_unitaries")
+    F.need(all(L.is_unitary(np.asarray(k), 1e-7) for pair in loc for k in pair), "tabulation_locals", "local factors are not unitary")
+    if r.success:
+        # entanglement fidelity of actual vs target
+        d = 4
+        tr = abs(np.trace(L.dag(r.actual_gate) @ u)) ** 2
+        fid = (d + tr) / (d * (d + 1))
+        F.need(1 - fid <= tab.max_expected_infidelity + 1e-9, "tabulation_success", f"success=True but infidelity {1 - fid:.4g} > max_expected_infidelity {tab.max_expected_infidelity}")
+        F.count("tabulation_success")
+    return F.result()
+
+
 # ------------------------------------------------------------------------------------------------
 # stages
 
 
+def _reset_for(tier, seed):
+    def reset():
+        _init(seed)
+        if "kv_descs" not in _S:
+            _S["kv_descs"] = L.s2_descs(tier, "main")
+        if "shannon" not in _S:
+            _S["shannon"] = shannon_inputs(tier)
+        if "prep" not in _S:
+            _S["prep"] = prep_states()
+        if "eig_inputs" not in _S:
+            _S["eig_inputs"] = eig_inputs()
+    return reset
+
+
 def stages(tier, seed):
-    _init(seed)
-    reset = lambda: _init(seed)
+    reset = _reset_for(tier, seed)
+    reset()
+    _clifford_selftest()
+    q = tier == "quick"
     main = L.s2_descs(tier, "main")
     small = L.s2_descs(tier, "small")
+    _S["cliff"] = clifford_inputs(tier)
+    nb = 64
+    batches = [(lo, min(len(main), lo + nb)) for lo in range(0, len(main), nb)]
+    fs_gates = range(4) if q else range(len(FSIM_GATES))
+    fsim_cases = [(d, gi, (k + gi) % 2) for k, d in enumerate(small[::(2 if q else 1)]) for gi in fs_gates]
+    ts, ths, phs = cphase_cases()
+    tab_cases = small[::(3 if q else 1)]
     st = [
         CaseStage("s1_single_qubit", L.s1_descs(tier), run_s1, reset=reset),
+        CaseStage("linalg_kron_factor", kron_cases(tier), run_kron, reset=reset),
+        CaseStage("linalg_so4_to_magic_su2s", so4_cases(tier), run_so4, reset=reset),
+        CaseStage("linalg_bidiagonalize_diagonalize", bidiag_cases(tier), run_bidiag_pair, reset=reset),
+        CaseStage("linalg_unitary_eig", list(range(len(_S["eig_inputs"]))), run_eig, reset=reset),
+        CaseStage("kak_canonicalize_vector", canonicalize_cases(tier), run_canonicalize, reset=reset),
         CaseStage("s2_kak", main, run_kak, reset=reset),
-        CaseStage("s2_cz_family", main, run_cz, reset=reset),
-        CaseStage("s2_sqrt_iswap", main, run_sqrt_iswap, reset=reset),
+        CaseStage("s2_kak_vector_batched", batches, run_kak_vector_batch, reset=reset),
+        CaseStage("s2_cz_operations", main, run_cz_main, reset=reset),
+        CaseStage("s2_cz_family_all_options", small, run_cz, reset=reset),
+        CaseStage("s2_sqrt_iswap", main, run_sqrt_iswap_main, reset=reset),
+        CaseStage("s2_sqrt_iswap_all_options", small, run_sqrt_iswap, reset=reset),
+        CaseStage("s2_four_fsim", fsim_cases, run_four_fsim, reset=reset),
+        CaseStage("s2_ion_sycamore", small, run_ion_syc, reset=reset),
+        CaseStage("parameterized_to_sqrt_iswap", param_cases(), run_param_sqrt_iswap, reset=reset),
+        CaseStage("known_ops_to_sycamore", list(range(len(known_syc_ops()))), run_known_syc, reset=reset),
+        CaseStage("cphase_into_two_fsim", [(i, j, k) for i in range(len(ts)) for j in range(len(ths)) for k in range(len(phs))], run_cphase_fsim, reset=reset),
+        CaseStage("s3_three_qubit", list(range(len(s3()))), run_three_qubit, reset=reset),
+        CaseStage("quantum_shannon", list(range(len(_S["shannon"]))), run_shannon, reset=reset),
+        CaseStage("multi_controlled_x", mcx_cases(), run_mcx, reset=reset),
+        CaseStage("multi_controlled_rotation", mcrot_cases(), run_mcrot, reset=reset),
+        CaseStage("two_qubit_state_preparation", list(range(len(_S["prep"]))), run_state_prep, reset=reset),
+        CaseStage("clifford_tableau_synthesis", list(range(len(_S["cliff"]))), run_clifford, reset=reset),
+        CaseStage("gate_tabulation", tab_cases, run_tabulation, reset=reset),
     ]
     return st
